@@ -100,3 +100,21 @@ Theorem C03_test_mode_example :
   exists st, bench_loop ex_test_cfg 0 [[ex_raw 1 2; ex_raw 1 3; ex_raw 0 9]; [ex_raw 5 6]] = Ok (Done st) /\
              s_sizes st = [1] /\ s_store st = store_empty.
 Proof. exact test_mode_example. Qed.
+
+(** End to end ([c03_e2e_sb]: what one row of the runner's table and the
+    per-thread call counters must show for count n, explicit size s on t
+    threads): it holds of the figures the model reports whenever no time limit
+    binds. *)
+Theorem C03_e2e_model : forall c init hist out s t sn,
+  c_test c = false -> zero_case c = false -> c_size c = Some s ->
+  (0 < t)%nat -> uniform_p t hist ->
+  let n := sample_count_of c in
+  let r := N.to_nat (ceil_div n (N.of_nat t)) in
+  (r <= length hist)%nat ->
+  (forall j, (j < r)%nat -> elapsed_after c init hist j < c_max c) ->
+  c_min c <= elapsed_after c init hist r ->
+  bench_loop c init hist = Ok out -> seen_of_outcome t out = Ok sn ->
+  N.of_nat (t * r) < 2 ^ 32 ->
+  c03_e2e_sb (c_count c) s (N.of_nat t) false (o_stat_samples sn) (o_stat_iters sn) (o_calls sn) = true.
+Proof. exact c03_e2e_model. Qed.
+Print Assumptions C03_e2e_model.
